@@ -78,7 +78,8 @@ class C19(PropertyCheck):
             "pixels; distinct = distinct case line.")
     assumptions = [
         "A-float: f64 ceil/log2 in etc1::decode and the f32 size product in ctpk::read are exact on the domain (modelled by integer functions; "
-        "confirmed by the correspondence over all 25 sizes and odd sizes)",
+        "confirmed by the correspondence over all 25 sizes, odd sizes, and the block consumption of d x 1 / 1 x d images for d = 1..40 (300 thorough) "
+        "and 2^k-1, 2^k, 2^k+1 up to 2049)",
         "A-alloc: allocations below 2^32 pixels succeed",
         "the 3DS formats are reached through a single-texture CTPK built by the harness, CI8 through a single-image TPL built by the harness",
     ]
@@ -223,6 +224,19 @@ class C19(PropertyCheck):
         for i in range(0, len(oblocks), 16):
             side, payload = etc_image(False, oblocks[i:i + 16], rng)
             etc(False, side, side, payload, "etc1-out-of-range-delta")
+
+        # 3b. A-float: the tile count 1 << (ceil(d / 8.0).log2() as usize) of etc1::decode, observed through the number of blocks
+        # consumed: d x 1 and 1 x d images with exactly tiles(w)*tiles(h) blocks (ok) and one block fewer (slice panic); model-compared
+        def tiles(d):
+            return 1 if d <= 8 else 1 << (((d + 7) // 8).bit_length() - 1)
+        ds = set(range(1, 41 if not thorough else 301))
+        for k in range(6, 12):
+            ds.update([(1 << k) - 1, 1 << k, (1 << k) + 1])
+        for d in sorted(ds):
+            for (w, h) in ((d, 1), (1, d)):
+                n = tiles(w) * tiles(h) * 4 * 8
+                etc(False, w, h, rand_bytes(rng, n), "etc-tile-count", ctpk=False)
+                etc(False, w, h, rand_bytes(rng, n - 8), "etc-tile-count", ctpk=False)
 
         # 4. RGB5A3: all 65536 values
         for chunk in range(16):
